@@ -190,6 +190,19 @@ func runC15(op string, in []string) string {
 				alias = b2s(gs(g) == gs(res)) // in place: the argument now holds the projected values
 			}
 			return gs(res) + " " + strconv.Itoa(calls) + " " + alias
+		case "projh": // a b c d e f <heap> <sgeom> : project.Geometry on slices that share backing arrays (lean/Orb/HeapOps.lean)
+			var co [6]float64
+			for i := range co {
+				co[i] = r.f()
+			}
+			arrays := rdHeap(r)
+			g := rdSGeom(r, arrays)
+			fn := func(p orb.Point) orb.Point {
+				return orb.Point{co[0]*p[0] + co[1]*p[1] + co[2], co[3]*p[0] + co[4]*p[1] + co[5]}
+			}
+			res := project.Geometry(g, fn)
+			// every backing array afterwards, the returned value and the argument, each slice located by pointer
+			return heapString(arrays) + " " + locString(res, arrays) + " " + locString(g, arrays)
 		}
 		return "badop"
 	})
@@ -320,6 +333,14 @@ func genC15(c *Ctx) {
 			c.Case("proj", strings.Join([]string{fb(2), fb(0), fb(1), fb(0), fb(0), fb(3), fb(-1), fb(0)}, " ")+" "+gs(g))
 			c.Case("proj", strings.Join([]string{fb(1), fb(0), fb(0), fb(1), fb(0), fb(1), fb(0), fb(100)}, " ")+" "+gs(g))
 		}
+		// heap level: the same ring twice in a polygon; a line and its own sub-slice in a collection;
+		// two lines whose ranges overlap in the middle of one buffer
+		aff := strings.Join([]string{fb(2), fb(0), fb(1), fb(0), fb(3), fb(-1)}, " ")
+		sq := "5 " + spts([]orb.Point{{0, 0}, {1, 0}, {1, 1}, {0, 1}, {0, 0}})[2:]
+		c.Case("projh", aff+" 1 "+sq+" PG 2 0 0 5 5 0 0 5 5")
+		c.Case("projh", aff+" 1 "+sq+" C 2 LS 0 0 5 5 LS 0 1 2 4")
+		c.Case("projh", aff+" 1 "+sq+" C 3 LS 0 0 3 5 P "+fb(1)+" "+fb(2)+" LS 0 2 3 3")
+		c.Case("projh", aff+" 2 "+sq+" 0 MPG 2 1 0 0 5 5 2 0 0 5 5 1 0 0 0")
 		for _, s := range []string{"nil", "nMP", "nLS", "nMLS", "nR", "nPG", "nMPG", "nC"} {
 			c.Case("proj", strings.Join([]string{fb(1), fb(0), fb(0), fb(1), fb(0), fb(1), fb(0), fb(1)}, " ")+" "+s)
 		}
@@ -391,7 +412,32 @@ func genC15(c *Ctx) {
 		mode := []CoordMode{CoordSmallInt, CoordInt, CoordHalf, CoordFloat}[r.Intn(4)]
 		pg := genGeom(r, GenOpts{Mode: mode, MaxPts: 5, MaxDepth: 3, TopNil: true}, 0)
 		c.Case("proj", strings.Join(co[:], " ")+" "+gs(pg))
+
+		// project.Geometry on geometries whose slices share backing arrays
+		genProjH(c)
 	}
+}
+
+var projHKinds = []string{"P", "B", "MP", "LS", "R", "MLS", "PG", "MPG", "C", "C", "C"}
+
+// genProjH: heaps of small-integer / half-integer points, geometries of every kind whose slices are
+// separate, packed sub-slices of one buffer, the same slice twice (the same ring twice in a polygon,
+// a line and its own sub-slice in a collection), or arbitrary overlapping headers.
+func genProjH(c *Ctx) {
+	r := c.Rng
+	mode := []CoordMode{CoordSmallInt, CoordHalf, CoordSmallInt, CoordModest}[r.Intn(4)]
+	b := &heapBuilder{r: r,
+		content: func(string) []orb.Point { return genPoints(r, mode, 5) },
+		filler:  func() orb.Point { return genPoint(r, mode) }}
+	var co [6]string
+	for i := range co {
+		v := float64(r.Intn(5) - 2)
+		if r.Intn(4) == 0 {
+			v = float64(r.Intn(33)-16) / 4
+		}
+		co[i] = fb(v)
+	}
+	c.Case("projh", strings.Join(co[:], " ")+" "+b.build(projHKinds, r.Intn(4)))
 }
 
 // geoGeomMerc draws a lon/lat geometry inside the mercator range.
